@@ -1,6 +1,1060 @@
-//! driver stub (filled in by its check)
+//! C20: configuration sources (defaults, file, command line) and interface-address parsing on the real code.
+//!
+//! `cfgmerge cases <cases.ndjson> <trace.ndjson> <variants> <stride> <offset> [allfe]`  executes the source combinations exported by TLC (MC_ConfigMerge,
+//!        symbolic values) on real `ConfigFile` / `Args` values - built directly as structs and through the real front
+//!        ends (serde_yaml on generated YAML, structopt on a generated argument vector, the version-1 file format) -
+//!        then `Config::default()`, `merge_file`, `merge_args`, and records what every option ended up as.
+//! `cfgmerge concrete <cases.ndjson> <trace.ndjson>`  replay of recorded cases (concrete values) on all front ends.
+//! `cfgmerge pairs <trace.ndjson> <stride> <offset>`  all option pairs x {file, args, both}^2 (natively enumerated).
+//! `cfgmerge random <n> <trace.ndjson>`            seeded random full combinations + round trip through the file form.
+//! `cfgmerge netmask <netcases.ndjson|-> <nrandom> <trace.ndjson>`  parse_ip_netmask on TLC's inputs, every prefix
+//!        0..=40, the malformed-string list and seeded mutations.
+//!
+//! The driver never judges: every event carries the inputs and the observed result, TLC (Trace_ConfigMerge) decides.
+use super::util::*;
+use crate::config::{Args, Config, ConfigFile, ConfigFileBeacon, ConfigFileDevice, ConfigFileStatsd, CryptoConfig};
+use crate::device::Type;
+use crate::oldconfig::OldConfigFile;
+use crate::types::Mode;
+use rand::seq::SliceRandom;
+use rand::Rng;
 use serde_json::{json, Value};
+use std::collections::{BTreeMap, HashMap};
+use std::str::FromStr;
+use structopt::StructOpt;
 
-pub fn run(_args: &[String]) -> Value {
-    json!({"error": "not implemented"})
+#[derive(Clone, Copy, PartialEq, Debug)]
+enum Ty {
+    Str,
+    Num,
+    DevType,
+    Mode,
+    Algo,
+    Bool,
+    Map,
+}
+
+/// Binding of option names (as in spec/ConfigMerge.tla) to the code: value syntax, position in the YAML file,
+/// command-line switch (alternatives are exercised by the variants), key in the version-1 file format.
+struct Opt {
+    name: &'static str,
+    kind: &'static str,
+    ty: Ty,
+    yaml: &'static [&'static str],
+    flags: &'static [&'static str],
+    flagval: &'static str,
+    old: &'static [&'static str],
+}
+
+const OPTS: &[Opt] = &[
+    Opt { name: "device_type", kind: "scalar", ty: Ty::DevType, yaml: &["device", "type"], flags: &["--type", "-t"], flagval: "", old: &["device_type", "device-type"] },
+    Opt { name: "device_name", kind: "scalar", ty: Ty::Str, yaml: &["device", "name"], flags: &["--device", "-d"], flagval: "", old: &["device_name", "device-name"] },
+    Opt { name: "device_path", kind: "optional", ty: Ty::Str, yaml: &["device", "path"], flags: &["--device-path"], flagval: "", old: &["device_path", "device-path"] },
+    Opt { name: "fix_rp_filter", kind: "flag", ty: Ty::Bool, yaml: &["device", "fix-rp-filter"], flags: &["--fix-rp-filter"], flagval: "true", old: &[] },
+    Opt { name: "ip", kind: "optional", ty: Ty::Str, yaml: &["ip"], flags: &["--ip"], flagval: "", old: &[] },
+    Opt { name: "advertise_addresses", kind: "list", ty: Ty::Str, yaml: &["advertise-addresses"], flags: &["--advertise_addresses"], flagval: "", old: &[] },
+    Opt { name: "ifup", kind: "optional", ty: Ty::Str, yaml: &["ifup"], flags: &["--ifup"], flagval: "", old: &["ifup"] },
+    Opt { name: "ifdown", kind: "optional", ty: Ty::Str, yaml: &["ifdown"], flags: &["--ifdown"], flagval: "", old: &["ifdown"] },
+    Opt { name: "password", kind: "optional", ty: Ty::Str, yaml: &["crypto", "password"], flags: &["--password", "-p"], flagval: "", old: &["shared_key", "shared-key"] },
+    Opt { name: "private_key", kind: "optional", ty: Ty::Str, yaml: &["crypto", "private-key"], flags: &["--private-key", "--key"], flagval: "", old: &[] },
+    Opt { name: "public_key", kind: "optional", ty: Ty::Str, yaml: &["crypto", "public-key"], flags: &["--public-key"], flagval: "", old: &[] },
+    Opt { name: "trusted_keys", kind: "list", ty: Ty::Str, yaml: &["crypto", "trusted-keys"], flags: &["--trusted-key", "--trust"], flagval: "", old: &[] },
+    Opt { name: "algorithms", kind: "listval", ty: Ty::Algo, yaml: &["crypto", "algorithms"], flags: &["--algorithm", "--algo"], flagval: "", old: &[] },
+    Opt { name: "listen", kind: "scalar", ty: Ty::Str, yaml: &["listen"], flags: &["--listen", "-l"], flagval: "", old: &["listen"] },
+    Opt { name: "peers", kind: "list", ty: Ty::Str, yaml: &["peers"], flags: &["--peer", "-c", "--connect"], flagval: "", old: &["peers"] },
+    Opt { name: "peer_timeout", kind: "scalar", ty: Ty::Num, yaml: &["peer-timeout"], flags: &["--peer-timeout"], flagval: "", old: &["peer_timeout", "peer-timeout"] },
+    Opt { name: "keepalive", kind: "optional", ty: Ty::Num, yaml: &["keepalive"], flags: &["--keepalive"], flagval: "", old: &["keepalive"] },
+    Opt { name: "beacon_store", kind: "optional", ty: Ty::Str, yaml: &["beacon", "store"], flags: &["--beacon-store"], flagval: "", old: &["beacon_store", "beacon-store"] },
+    Opt { name: "beacon_load", kind: "optional", ty: Ty::Str, yaml: &["beacon", "load"], flags: &["--beacon-load"], flagval: "", old: &["beacon_load", "beacon-load"] },
+    Opt { name: "beacon_interval", kind: "scalar", ty: Ty::Num, yaml: &["beacon", "interval"], flags: &["--beacon-interval"], flagval: "", old: &["beacon_interval", "beacon-interval"] },
+    Opt { name: "beacon_password", kind: "optional", ty: Ty::Str, yaml: &["beacon", "password"], flags: &["--beacon-password"], flagval: "", old: &[] },
+    Opt { name: "mode", kind: "scalar", ty: Ty::Mode, yaml: &["mode"], flags: &["--mode", "-m"], flagval: "", old: &["mode"] },
+    Opt { name: "switch_timeout", kind: "scalar", ty: Ty::Num, yaml: &["switch-timeout"], flags: &["--switch-timeout"], flagval: "", old: &["dst_timeout", "dst-timeout"] },
+    Opt { name: "claims", kind: "list", ty: Ty::Str, yaml: &["claims"], flags: &["--claim"], flagval: "", old: &["subnets"] },
+    Opt { name: "auto_claim", kind: "flag", ty: Ty::Bool, yaml: &["auto-claim"], flags: &["--no-auto-claim"], flagval: "false", old: &[] },
+    Opt { name: "port_forwarding", kind: "flag", ty: Ty::Bool, yaml: &["port-forwarding"], flags: &["--no-port-forwarding"], flagval: "false", old: &["port_forwarding", "port-forwarding"] },
+    Opt { name: "daemonize", kind: "flag", ty: Ty::Bool, yaml: &[], flags: &["--daemon"], flagval: "true", old: &[] },
+    Opt { name: "pid_file", kind: "optional", ty: Ty::Str, yaml: &["pid-file"], flags: &["--pid-file"], flagval: "", old: &["pid_file", "pid-file"] },
+    Opt { name: "stats_file", kind: "optional", ty: Ty::Str, yaml: &["stats-file"], flags: &["--stats-file"], flagval: "", old: &["stats_file", "stats-file"] },
+    Opt { name: "statsd_server", kind: "optional", ty: Ty::Str, yaml: &["statsd", "server"], flags: &["--statsd-server"], flagval: "", old: &["statsd_server", "statsd-server"] },
+    Opt { name: "statsd_prefix", kind: "optional", ty: Ty::Str, yaml: &["statsd", "prefix"], flags: &["--statsd-prefix"], flagval: "", old: &["statsd_prefix", "statsd-prefix"] },
+    Opt { name: "user", kind: "optional", ty: Ty::Str, yaml: &["user"], flags: &["--user"], flagval: "", old: &["user"] },
+    Opt { name: "group", kind: "optional", ty: Ty::Str, yaml: &["group"], flags: &["--group"], flagval: "", old: &["group"] },
+    Opt { name: "hook", kind: "optional", ty: Ty::Str, yaml: &["hook"], flags: &["--hook"], flagval: "", old: &[] },
+    Opt { name: "hooks", kind: "map", ty: Ty::Map, yaml: &["hooks"], flags: &["--hook"], flagval: "", old: &[] },
+];
+
+fn opt(name: &str) -> &'static Opt {
+    OPTS.iter().find(|o| o.name == name).unwrap_or_else(|| panic!("unknown option {}", name))
+}
+
+/// A value of a setting or of a source: sequence of strings, or sequence of (key, value) for the hooks map.
+#[derive(Clone, Debug, PartialEq)]
+enum Val {
+    S(Vec<String>),
+    M(Vec<(String, String)>),
+}
+
+impl Val {
+    fn json(&self) -> Value {
+        match self {
+            Val::S(v) => json!(v),
+            Val::M(m) => Value::Array(m.iter().map(|(k, v)| json!([k, v])).collect()),
+        }
+    }
+    fn s(&self) -> &Vec<String> {
+        match self {
+            Val::S(v) => v,
+            _ => panic!("driver: map where list expected"),
+        }
+    }
+    fn m(&self) -> &Vec<(String, String)> {
+        match self {
+            Val::M(v) => v,
+            _ => panic!("driver: list where map expected"),
+        }
+    }
+    fn one(&self) -> &str {
+        &self.s()[0]
+    }
+}
+
+type Src = BTreeMap<&'static str, Val>;
+
+#[derive(Clone, Debug, Default)]
+struct Case {
+    file: Src,
+    args: Src,
+}
+
+fn empty_of(o: &Opt) -> Val {
+    if o.ty == Ty::Map {
+        Val::M(vec![])
+    } else {
+        Val::S(vec![])
+    }
+}
+
+// ---------------------------------------------------------------------------------------------- observation
+
+fn ostr(v: &Option<String>) -> Val {
+    Val::S(v.iter().cloned().collect())
+}
+
+/// What every option is in an effective configuration (plain read-out of the struct fields).
+fn observe(c: &Config) -> BTreeMap<&'static str, Val> {
+    let mut m = BTreeMap::new();
+    let one = |s: String| Val::S(vec![s]);
+    m.insert("device_type", one(format!("{}", c.device_type)));
+    m.insert("device_name", one(c.device_name.clone()));
+    m.insert("device_path", ostr(&c.device_path));
+    m.insert("fix_rp_filter", one(c.fix_rp_filter.to_string()));
+    m.insert("ip", ostr(&c.ip));
+    m.insert("advertise_addresses", Val::S(c.advertise_addresses.clone()));
+    m.insert("ifup", ostr(&c.ifup));
+    m.insert("ifdown", ostr(&c.ifdown));
+    m.insert("password", ostr(&c.crypto.password));
+    m.insert("private_key", ostr(&c.crypto.private_key));
+    m.insert("public_key", ostr(&c.crypto.public_key));
+    m.insert("trusted_keys", Val::S(c.crypto.trusted_keys.clone()));
+    m.insert("algorithms", Val::S(c.crypto.algorithms.clone()));
+    m.insert("listen", one(c.listen.clone()));
+    m.insert("peers", Val::S(c.peers.clone()));
+    m.insert("peer_timeout", one(c.peer_timeout.to_string()));
+    m.insert("keepalive", Val::S(c.keepalive.iter().map(|v| v.to_string()).collect()));
+    m.insert("beacon_store", ostr(&c.beacon_store));
+    m.insert("beacon_load", ostr(&c.beacon_load));
+    m.insert("beacon_interval", one(c.beacon_interval.to_string()));
+    m.insert("beacon_password", ostr(&c.beacon_password));
+    m.insert("mode", one(format!("{}", c.mode)));
+    m.insert("switch_timeout", one(c.switch_timeout.to_string()));
+    m.insert("claims", Val::S(c.claims.clone()));
+    m.insert("auto_claim", one(c.auto_claim.to_string()));
+    m.insert("port_forwarding", one(c.port_forwarding.to_string()));
+    m.insert("daemonize", one(c.daemonize.to_string()));
+    m.insert("pid_file", ostr(&c.pid_file));
+    m.insert("stats_file", ostr(&c.stats_file));
+    m.insert("statsd_server", ostr(&c.statsd_server));
+    m.insert("statsd_prefix", ostr(&c.statsd_prefix));
+    m.insert("user", ostr(&c.user));
+    m.insert("group", ostr(&c.group));
+    m.insert("hook", ostr(&c.hook));
+    let mut hooks: Vec<(String, String)> = c.hooks.iter().map(|(k, v)| (k.clone(), v.clone())).collect();
+    hooks.sort();
+    m.insert("hooks", Val::M(hooks));
+    m
+}
+
+// ---------------------------------------------------------------------------------------------- front ends
+
+fn get1(src: &Src, name: &str) -> Option<String> {
+    src.get(name).and_then(|v| v.s().first().cloned())
+}
+fn getn(src: &Src, name: &str) -> Option<u32> {
+    get1(src, name).map(|s| s.parse::<u32>().expect("driver: numeric value"))
+}
+fn getb(src: &Src, name: &str) -> Option<bool> {
+    get1(src, name).map(|s| s == "true")
+}
+fn getl(src: &Src, name: &str) -> Option<Vec<String>> {
+    src.get(name).map(|v| v.s().clone())
+}
+
+/// The file as the struct the YAML reader produces. `variant` decides how absent sub-structures are written.
+fn file_struct(src: &Src, variant: u64) -> ConfigFile {
+    let any = |names: &[&str]| names.iter().any(|n| src.contains_key(n));
+    let device = if any(&["device_type", "device_name", "device_path", "fix_rp_filter"]) || variant % 2 == 1 {
+        Some(ConfigFileDevice {
+            type_: get1(src, "device_type").map(|s| Type::from_str(&s).unwrap()),
+            name: get1(src, "device_name"),
+            path: get1(src, "device_path"),
+            fix_rp_filter: getb(src, "fix_rp_filter"),
+        })
+    } else {
+        None
+    };
+    let beacon = if any(&["beacon_store", "beacon_load", "beacon_interval", "beacon_password"]) || variant % 2 == 1 {
+        Some(ConfigFileBeacon {
+            store: get1(src, "beacon_store"),
+            load: get1(src, "beacon_load"),
+            interval: getn(src, "beacon_interval"),
+            password: get1(src, "beacon_password"),
+        })
+    } else {
+        None
+    };
+    let statsd = if any(&["statsd_server", "statsd_prefix"]) || variant % 2 == 1 {
+        Some(ConfigFileStatsd { server: get1(src, "statsd_server"), prefix: get1(src, "statsd_prefix") })
+    } else {
+        None
+    };
+    let mut hooks = HashMap::new();
+    if let Some(v) = src.get("hooks") {
+        for (k, s) in v.m() {
+            hooks.insert(k.clone(), s.clone());
+        }
+    }
+    ConfigFile {
+        device,
+        ip: get1(src, "ip"),
+        advertise_addresses: getl(src, "advertise_addresses"),
+        ifup: get1(src, "ifup"),
+        ifdown: get1(src, "ifdown"),
+        crypto: CryptoConfig {
+            password: get1(src, "password"),
+            private_key: get1(src, "private_key"),
+            public_key: get1(src, "public_key"),
+            trusted_keys: getl(src, "trusted_keys").unwrap_or_default(),
+            algorithms: getl(src, "algorithms").unwrap_or_default(),
+        },
+        listen: get1(src, "listen"),
+        peers: getl(src, "peers"),
+        peer_timeout: getn(src, "peer_timeout"),
+        keepalive: getn(src, "keepalive"),
+        beacon,
+        mode: get1(src, "mode").map(|s| Mode::from_str(&s).unwrap()),
+        switch_timeout: getn(src, "switch_timeout"),
+        claims: getl(src, "claims"),
+        auto_claim: getb(src, "auto_claim"),
+        port_forwarding: getb(src, "port_forwarding"),
+        pid_file: get1(src, "pid_file"),
+        stats_file: get1(src, "stats_file"),
+        statsd,
+        user: get1(src, "user"),
+        group: get1(src, "group"),
+        hook: get1(src, "hook"),
+        hooks,
+    }
+}
+
+fn yaml_scalar(o: &Opt, s: &str) -> String {
+    match o.ty {
+        Ty::Num | Ty::Bool | Ty::DevType | Ty::Mode => s.to_string(),
+        _ => serde_json::to_string(s).unwrap(), // a JSON string is a YAML double-quoted scalar
+    }
+}
+
+/// The file as YAML text in the documented layout (CONFIG FILES / example.net). Absent options are left out or
+/// written as `~` ("no value", as in the example file) depending on `variant`.
+fn file_yaml(src: &Src, variant: u64) -> String {
+    let mut top: Vec<(String, Vec<String>)> = vec![]; // section -> lines
+    let mut section = |name: &str| -> usize {
+        if let Some(i) = top.iter().position(|(n, _)| n == name) {
+            i
+        } else {
+            top.push((name.to_string(), vec![]));
+            top.len() - 1
+        }
+    };
+    let mut lines: Vec<(usize, String)> = vec![];
+    for o in OPTS {
+        if o.yaml.is_empty() {
+            continue;
+        }
+        let key = o.yaml[o.yaml.len() - 1];
+        let sec = if o.yaml.len() == 2 { o.yaml[0] } else { "" };
+        let ind = if sec.is_empty() { "" } else { "  " };
+        let body: Option<String> = match src.get(o.name) {
+            None => {
+                if variant % 3 == 2 {
+                    // explicit "no value"
+                    Some(match (o.kind, o.name) {
+                        ("map", _) => format!("{}{}: {{}}", ind, key),
+                        (_, "trusted_keys") | (_, "algorithms") => format!("{}{}: []", ind, key),
+                        _ => format!("{}{}: ~", ind, key),
+                    })
+                } else {
+                    None
+                }
+            }
+            Some(Val::M(m)) => {
+                let mut s = format!("{}{}:", ind, key);
+                if m.is_empty() {
+                    s.push_str(" {}");
+                }
+                for (k, v) in m {
+                    s.push_str(&format!("\n{}  {}: {}", ind, k, serde_json::to_string(v).unwrap()));
+                }
+                Some(s)
+            }
+            Some(Val::S(v)) => {
+                if matches!(o.kind, "list" | "listval") {
+                    let mut s = format!("{}{}:", ind, key);
+                    if v.is_empty() {
+                        s.push_str(" []");
+                    }
+                    for x in v {
+                        s.push_str(&format!("\n{}  - {}", ind, yaml_scalar(o, x)));
+                    }
+                    Some(s)
+                } else {
+                    Some(format!("{}{}: {}", ind, key, yaml_scalar(o, &v[0])))
+                }
+            }
+        };
+        if let Some(b) = body {
+            let i = section(sec);
+            lines.push((i, b));
+        }
+    }
+    let mut out = String::new();
+    // sections in a variant-dependent order (the file is a map: order must not matter)
+    let mut order: Vec<usize> = (0..top.len()).collect();
+    if variant % 2 == 1 {
+        order.reverse();
+    }
+    for i in order {
+        let name = top[i].0.clone();
+        if !name.is_empty() {
+            out.push_str(&format!("{}:\n", name));
+        }
+        for (j, l) in &lines {
+            if *j == i {
+                out.push_str(l);
+                out.push('\n');
+            }
+        }
+    }
+    if out.trim().is_empty() {
+        out.push_str("{}\n");
+    }
+    out
+}
+
+/// Version-1 file (oldconfig.rs): flat keys with underscore or dash spelling. None when the source says something the
+/// old format has no word for.
+fn file_old_yaml(src: &Src, variant: u64) -> Option<String> {
+    let mut out = String::new();
+    for (name, v) in src {
+        let o = opt(name);
+        if o.old.is_empty() {
+            return None;
+        }
+        let key = o.old[(variant as usize) % o.old.len()];
+        match v {
+            Val::M(_) => return None,
+            Val::S(list) => {
+                if matches!(o.kind, "list") {
+                    out.push_str(&format!("{}:", key));
+                    if list.is_empty() {
+                        out.push_str(" []");
+                    }
+                    for x in list {
+                        out.push_str(&format!("\n  - {}", yaml_scalar(o, x)));
+                    }
+                    out.push('\n');
+                } else {
+                    out.push_str(&format!("{}: {}\n", key, yaml_scalar(o, &list[0])));
+                }
+            }
+        }
+    }
+    if out.is_empty() {
+        out.push_str("{}\n");
+    }
+    Some(out)
+}
+
+fn args_struct(src: &Src) -> Args {
+    let mut hook: Vec<String> = vec![];
+    if let Some(s) = get1(src, "hook") {
+        hook.push(s);
+    }
+    if let Some(v) = src.get("hooks") {
+        for (k, s) in v.m() {
+            hook.push(format!("{}:{}", k, s));
+        }
+    }
+    Args {
+        type_: get1(src, "device_type").map(|s| Type::from_str(&s).unwrap()),
+        device: get1(src, "device_name"),
+        device_path: get1(src, "device_path"),
+        fix_rp_filter: src.contains_key("fix_rp_filter"),
+        ip: get1(src, "ip"),
+        advertise_addresses: getl(src, "advertise_addresses").unwrap_or_default(),
+        ifup: get1(src, "ifup"),
+        ifdown: get1(src, "ifdown"),
+        password: get1(src, "password"),
+        private_key: get1(src, "private_key"),
+        public_key: get1(src, "public_key"),
+        trusted_keys: getl(src, "trusted_keys").unwrap_or_default(),
+        algorithms: getl(src, "algorithms").unwrap_or_default(),
+        listen: get1(src, "listen"),
+        peers: getl(src, "peers").unwrap_or_default(),
+        peer_timeout: getn(src, "peer_timeout"),
+        keepalive: getn(src, "keepalive"),
+        beacon_store: get1(src, "beacon_store"),
+        beacon_load: get1(src, "beacon_load"),
+        beacon_interval: getn(src, "beacon_interval"),
+        beacon_password: get1(src, "beacon_password"),
+        mode: get1(src, "mode").map(|s| Mode::from_str(&s).unwrap()),
+        switch_timeout: getn(src, "switch_timeout"),
+        claims: getl(src, "claims").unwrap_or_default(),
+        no_auto_claim: src.contains_key("auto_claim"),
+        no_port_forwarding: src.contains_key("port_forwarding"),
+        daemon: src.contains_key("daemonize"),
+        pid_file: get1(src, "pid_file"),
+        stats_file: get1(src, "stats_file"),
+        statsd_server: get1(src, "statsd_server"),
+        statsd_prefix: get1(src, "statsd_prefix"),
+        user: get1(src, "user"),
+        group: get1(src, "group"),
+        hook,
+        ..Default::default()
+    }
+}
+
+/// Does the command line itself refuse this combination (documented conflicts / requirements)?
+fn argv_refused(src: &Src) -> bool {
+    (src.contains_key("password") && src.contains_key("private_key"))
+        || (src.contains_key("statsd_prefix") && !src.contains_key("statsd_server"))
+}
+
+/// The command line as an argument vector; `variant` chooses among documented spellings (-t / --type, --opt=value).
+fn argv(src: &Src, variant: u64) -> Vec<String> {
+    let mut v = vec!["vpncloud".to_string()];
+    if variant % 2 == 1 {
+        // options without influence on the configuration
+        v.push("--verbose".to_string());
+        v.push("--log-file".to_string());
+        v.push("/nonexistent/verif.log".to_string());
+    }
+    let mut names: Vec<&&'static str> = src.keys().collect();
+    if variant % 2 == 1 {
+        names.reverse();
+    }
+    for name in names {
+        let o = opt(name);
+        let flag = o.flags[(variant as usize) % o.flags.len()];
+        let push = |v: &mut Vec<String>, val: &str| {
+            if flag.starts_with("--") && variant % 4 >= 2 {
+                v.push(format!("{}={}", flag, val));
+            } else {
+                v.push(flag.to_string());
+                v.push(val.to_string());
+            }
+        };
+        match (&src[*name], o.kind) {
+            (_, "flag") => v.push(flag.to_string()),
+            (Val::M(m), _) => {
+                for (k, s) in m {
+                    push(&mut v, &format!("{}:{}", k, s));
+                }
+            }
+            (Val::S(list), _) => {
+                for x in list {
+                    push(&mut v, x);
+                }
+            }
+        }
+    }
+    v
+}
+
+fn clear_env() {
+    for k in ["PASSWORD", "PRIVATE_KEY", "VPNCLOUD_PASSWORD", "VPNCLOUD_PRIVATE_KEY"] {
+        std::env::remove_var(k);
+    }
+}
+
+// ---------------------------------------------------------------------------------------------- running one case
+
+struct Runner {
+    t: Trace,
+    cases: u64,
+    runs: u64,
+    skipped_argv: u64,
+    skipped_old: u64,
+    failures: u64,
+}
+
+impl Runner {
+    fn call_failed(&mut self, case: u64, fe: &str, what: &str, res: &str, msg: &str, input: Value) {
+        self.failures += 1;
+        let mut msg = msg.to_string();
+        msg.truncate(300);
+        self.t.ev(json!({"op":"call","case":case,"fe":fe,"what":what,"res":res,"msg":msg,"input":input}));
+    }
+
+    /// defaults -> merge_file -> merge_args on real values; returns the effective configuration
+    fn merge(&mut self, case: u64, fe: &str, file: Option<ConfigFile>, args: Args) -> Option<Config> {
+        let mut cfg = match guarded(Config::default) {
+            Ok(c) => c,
+            Err(m) => {
+                self.call_failed(case, fe, "Config::default", "panic", &m, json!(null));
+                return None;
+            }
+        };
+        if let Some(f) = file {
+            if let Err(m) = guarded(|| cfg.merge_file(f)) {
+                self.call_failed(case, fe, "merge_file", "panic", &m, json!(null));
+                return None;
+            }
+        }
+        if let Err(m) = guarded(|| cfg.merge_args(args)) {
+            self.call_failed(case, fe, "merge_args", "panic", &m, json!(null));
+            return None;
+        }
+        Some(cfg)
+    }
+
+    fn log_merge(&mut self, case: u64, fe: &str, c: &Case, cfg: &Config, skip: &[&str]) {
+        let obs = observe(cfg);
+        for o in OPTS {
+            if skip.contains(&o.name) {
+                continue;
+            }
+            let f = c.file.get(o.name).cloned().unwrap_or_else(|| empty_of(o));
+            let a = c.args.get(o.name).cloned().unwrap_or_else(|| empty_of(o));
+            self.t.ev(json!({"op":"merge","case":case,"fe":fe,"opt":o.name,"kind":o.kind,
+                             "file":f.json(),"args":a.json(),"got":obs[o.name].json()}));
+        }
+    }
+
+    fn log_keepalive(&mut self, case: u64, cfg: &Config) {
+        let ka: Vec<u32> = cfg.keepalive.iter().cloned().collect();
+        match guarded(|| cfg.get_keepalive()) {
+            Ok(v) => self.t.ev(json!({"op":"keepalive","case":case,"keepalive":ka,"peer_timeout":cfg.peer_timeout,"res":"ok","got":v})),
+            Err(_) => self.t.ev(json!({"op":"keepalive","case":case,"keepalive":ka,"peer_timeout":cfg.peer_timeout,"res":"panic","got":0})),
+        }
+    }
+
+    /// effective configuration -> file form -> merged into fresh defaults (directly and through YAML text)
+    fn roundtrip(&mut self, case: u64, cfg: &Config) {
+        let orig = observe(cfg);
+        for via in ["struct", "yaml"] {
+            let cf = match guarded(|| cfg.clone().into_config_file()) {
+                Ok(cf) => cf,
+                Err(m) => {
+                    self.call_failed(case, via, "into_config_file", "panic", &m, json!(null));
+                    return;
+                }
+            };
+            let cf = if via == "yaml" {
+                let text = match guarded(|| serde_yaml::to_string(&cf)) {
+                    Ok(Ok(t)) => t,
+                    Ok(Err(e)) => {
+                        self.call_failed(case, via, "serialize file form", "err", &e.to_string(), json!(null));
+                        continue;
+                    }
+                    Err(m) => {
+                        self.call_failed(case, via, "serialize file form", "panic", &m, json!(null));
+                        continue;
+                    }
+                };
+                match guarded(|| serde_yaml::from_str::<ConfigFile>(&text)) {
+                    Ok(Ok(cf)) => cf,
+                    Ok(Err(e)) => {
+                        self.call_failed(case, via, "read back file form", "err", &e.to_string(), json!(text));
+                        continue;
+                    }
+                    Err(m) => {
+                        self.call_failed(case, via, "read back file form", "panic", &m, json!(text));
+                        continue;
+                    }
+                }
+            } else {
+                cf
+            };
+            let back = match self.merge(case, via, Some(cf), Args::default()) {
+                Some(b) => b,
+                None => continue,
+            };
+            let got = observe(&back);
+            for o in OPTS {
+                self.t.ev(json!({"op":"roundtrip","case":case,"via":via,"opt":o.name,"orig":orig[o.name].json(),"got":got[o.name].json()}));
+            }
+        }
+    }
+
+    /// One source combination on the front ends selected by `fes` ("struct", "text", "old").
+    fn run_case(&mut self, c: &Case, variant: u64, fes: &[&str], roundtrip: bool) {
+        self.cases += 1;
+        let case = self.cases;
+        for fe in fes {
+            match *fe {
+                "struct" => {
+                    let file = if c.file.is_empty() && variant % 2 == 0 { None } else { Some(file_struct(&c.file, variant)) };
+                    let args = args_struct(&c.args);
+                    self.runs += 1;
+                    if let Some(cfg) = self.merge(case, fe, file, args) {
+                        self.log_merge(case, fe, c, &cfg, &[]);
+                        self.log_keepalive(case, &cfg);
+                        if roundtrip {
+                            self.roundtrip(case, &cfg);
+                        }
+                    }
+                }
+                "text" => {
+                    if argv_refused(&c.args) {
+                        self.skipped_argv += 1;
+                        continue;
+                    }
+                    let text = file_yaml(&c.file, variant);
+                    let file = match guarded(|| serde_yaml::from_str::<ConfigFile>(&text)) {
+                        Ok(Ok(f)) => f,
+                        Ok(Err(e)) => {
+                            self.call_failed(case, fe, "read config file", "err", &e.to_string(), json!(text));
+                            continue;
+                        }
+                        Err(m) => {
+                            self.call_failed(case, fe, "read config file", "panic", &m, json!(text));
+                            continue;
+                        }
+                    };
+                    let av = argv(&c.args, variant);
+                    clear_env();
+                    let args = match guarded(|| Args::from_iter_safe(av.iter())) {
+                        Ok(Ok(a)) => a,
+                        Ok(Err(e)) => {
+                            self.call_failed(case, fe, "parse command line", "err", &e.message, json!(av));
+                            continue;
+                        }
+                        Err(m) => {
+                            self.call_failed(case, fe, "parse command line", "panic", &m, json!(av));
+                            continue;
+                        }
+                    };
+                    self.runs += 1;
+                    if let Some(cfg) = self.merge(case, fe, Some(file), args) {
+                        self.log_merge(case, fe, c, &cfg, &[]);
+                    }
+                }
+                "old" => {
+                    // version-1 file: the shared key doubles as beacon password and a missing key becomes "none"
+                    // (documented by the converter's own warnings) - those two options are not bound here
+                    let text = match file_old_yaml(&c.file, variant) {
+                        Some(t) => t,
+                        None => {
+                            self.skipped_old += 1;
+                            continue;
+                        }
+                    };
+                    let old = match guarded(|| serde_yaml::from_str::<OldConfigFile>(&text)) {
+                        Ok(Ok(f)) => f,
+                        Ok(Err(e)) => {
+                            self.call_failed(case, fe, "read version-1 file", "err", &e.to_string(), json!(text));
+                            continue;
+                        }
+                        Err(m) => {
+                            self.call_failed(case, fe, "read version-1 file", "panic", &m, json!(text));
+                            continue;
+                        }
+                    };
+                    let file = match guarded(|| old.convert()) {
+                        Ok(f) => f,
+                        Err(m) => {
+                            self.call_failed(case, fe, "convert version-1 file", "panic", &m, json!(text));
+                            continue;
+                        }
+                    };
+                    self.runs += 1;
+                    if let Some(cfg) = self.merge(case, fe, Some(file), args_struct(&c.args)) {
+                        self.log_merge(case, fe, c, &cfg, &["password", "beacon_password"]);
+                    }
+                }
+                other => panic!("unknown front end {}", other),
+            }
+        }
+    }
+
+    /// version-1 `listen` / `port`
+    fn old_listen(&mut self) {
+        for (listen, port) in [(None, None), (Some("[::]:4000"), None), (None, Some(4001u16)), (Some("10.1.1.1:4002"), Some(4003u16))] {
+            let mut text = String::new();
+            if let Some(l) = listen {
+                text.push_str(&format!("listen: \"{}\"\n", l));
+            }
+            if let Some(p) = port {
+                text.push_str(&format!("port: {}\n", p));
+            }
+            if text.is_empty() {
+                text.push_str("{}\n");
+            }
+            let res = guarded(|| serde_yaml::from_str::<OldConfigFile>(&text).map(|o| o.convert()));
+            match res {
+                Ok(Ok(cf)) => {
+                    let l: Vec<String> = listen.iter().map(|s| s.to_string()).collect();
+                    let p: Vec<String> = port.iter().map(|s| s.to_string()).collect();
+                    let g: Vec<String> = cf.listen.iter().cloned().collect();
+                    self.t.ev(json!({"op":"oldlisten","listen":l,"port":p,"got":g}));
+                }
+                Ok(Err(e)) => self.call_failed(0, "old", "read version-1 file", "err", &e.to_string(), json!(text)),
+                Err(m) => self.call_failed(0, "old", "convert version-1 file", "panic", &m, json!(text)),
+            }
+        }
+    }
+
+    fn summary(self) -> Value {
+        let (cases, runs, sa, so, fl) = (self.cases, self.runs, self.skipped_argv, self.skipped_old, self.failures);
+        let events = self.t.finish();
+        json!({"runs": runs, "steps": cases, "events": events, "skipped_argv": sa, "skipped_old": so, "call_failures": fl})
+    }
+}
+
+// ---------------------------------------------------------------------------------------------- values
+
+const EVENTS: [&str; 6] = ["peer_connected", "peer_disconnected", "device_setup", "device_configured", "vpn_started", "peer_connecting"];
+const MODES: [&str; 4] = ["normal", "hub", "switch", "router"];
+const ALGOS4: [&str; 4] = ["aes128", "aes256", "chacha20", "plain"];
+
+/// A concrete value for a symbolic one ("f1", "f2", "a1", "a2", ...): distinct per (option, symbol, variant).
+fn concrete(o: &Opt, sym: &str, variant: u64) -> String {
+    let from_args = sym.starts_with('a');
+    let idx: u64 = sym[1..].parse().unwrap_or(1);
+    let oi = OPTS.iter().position(|x| x.name == o.name).unwrap() as u64;
+    match o.ty {
+        Ty::Str | Ty::Map => format!("{}.{}.v{}", sym, o.name, variant),
+        Ty::Num => ((if from_args { 2000 } else { 1000 }) + 100 * idx + 2 * oi + 200 * (variant % 4)).to_string(),
+        Ty::DevType => (if from_args ^ (variant % 2 == 1) { "tun" } else { "tap" }).to_string(),
+        Ty::Mode => MODES[((if from_args { 2 } else { 1 }) + variant as usize) % 4].to_string(),
+        Ty::Algo => ALGOS4[((if from_args { 2 } else { 0 }) + idx as usize - 1 + variant as usize) % 4].to_string(),
+        Ty::Bool => sym.to_string(),
+    }
+}
+
+fn concretize_src(v: &Value, variant: u64) -> Src {
+    let mut src = Src::new();
+    if let Some(obj) = v.as_object() {
+        for (name, val) in obj {
+            let o = opt(name);
+            let arr = val.as_array().expect("driver: source value must be an array");
+            let cv = if o.ty == Ty::Map {
+                Val::M(arr
+                    .iter()
+                    .map(|p| {
+                        let k = p[0].as_str().unwrap();
+                        let ki: usize = k[1..].parse().unwrap_or(1);
+                        (EVENTS[(ki + variant as usize) % EVENTS.len()].to_string(), concrete(o, p[1].as_str().unwrap(), variant))
+                    })
+                    .collect())
+            } else {
+                Val::S(arr.iter().map(|s| concrete(o, s.as_str().unwrap(), variant)).collect())
+            };
+            src.insert(o.name, cv);
+        }
+    }
+    src
+}
+
+/// TLC's cases. Cases about one option and the all-at-once cases run on every front end and `variants` value
+/// assignments; the (many) two-option cases rotate over the front ends and are thinned by stride/offset.
+pub fn run_cases(cases_path: &str, out_path: &str, variants: u64, stride: u64, offset: u64, allfe: bool) -> Value {
+    let cases = read_ndjson(cases_path);
+    let mut r = Runner { t: Trace::create(out_path), cases: 0, runs: 0, skipped_argv: 0, skipped_old: 0, failures: 0 };
+    let mut npair = 0u64;
+    for (i, c) in cases.iter().enumerate() {
+        let mut names: Vec<String> = vec![];
+        for side in ["file", "args"] {
+            if let Some(o) = c[side].as_object() {
+                for k in o.keys() {
+                    if !names.contains(k) {
+                        names.push(k.clone());
+                    }
+                }
+            }
+        }
+        if names.len() == 2 {
+            npair += 1;
+            if npair % stride != offset % stride {
+                continue;
+            }
+            let variant = (npair / stride) % 4;
+            let case = Case { file: concretize_src(&c["file"], variant), args: concretize_src(&c["args"], variant) };
+            let old_ok = file_old_yaml(&case.file, variant).is_some() && !case.file.is_empty();
+            let fe = match (npair / stride) % 3 {
+                0 => "struct",
+                1 => "text",
+                _ => if old_ok { "old" } else { "text" },
+            };
+            let fe = if fe == "text" && argv_refused(&case.args) { "struct" } else { fe };
+            if allfe {
+                r.run_case(&case, variant, &["struct", "text", "old"], false);
+            } else {
+                r.run_case(&case, variant, &[fe], false);
+            }
+        } else {
+            for variant in 0..variants {
+                let case = Case { file: concretize_src(&c["file"], variant), args: concretize_src(&c["args"], variant) };
+                r.run_case(&case, variant, &["struct", "text", "old"], (i as u64 + variant) % 5 == 0);
+            }
+        }
+    }
+    r.old_listen();
+    r.summary()
+}
+
+/// Replay of recorded cases with concrete values: ndjson lines {"file": {opt: value}, "args": {opt: value}}.
+pub fn run_concrete(cases_path: &str, out_path: &str) -> Value {
+    let mut r = Runner { t: Trace::create(out_path), cases: 0, runs: 0, skipped_argv: 0, skipped_old: 0, failures: 0 };
+    let to_src = |v: &Value| -> Src {
+        let mut src = Src::new();
+        if let Some(obj) = v.as_object() {
+            for (name, val) in obj {
+                let o = opt(name);
+                let arr = val.as_array().expect("value must be an array");
+                let cv = if o.ty == Ty::Map {
+                    Val::M(arr.iter().map(|p| (p[0].as_str().unwrap().to_string(), p[1].as_str().unwrap().to_string())).collect())
+                } else {
+                    Val::S(arr.iter().map(|x| x.as_str().unwrap().to_string()).collect())
+                };
+                src.insert(o.name, cv);
+            }
+        }
+        src
+    };
+    for c in read_ndjson(cases_path) {
+        let case = Case { file: to_src(&c["file"]), args: to_src(&c["args"]) };
+        for variant in 0..4 {
+            r.run_case(&case, variant, &["struct", "text", "old"], true);
+        }
+    }
+    r.old_listen();
+    r.summary()
+}
+
+/// Reads a configuration file the way main() does (current format, else version 1) - used for the documentation's
+/// own example files (non-gating notes).
+pub fn run_parsefile(path: &str) -> Value {
+    let text = std::fs::read_to_string(path).expect("read file");
+    let new = guarded(|| serde_yaml::from_str::<ConfigFile>(&text).map(|_| ()).map_err(|e| e.to_string()));
+    let old = guarded(|| serde_yaml::from_str::<OldConfigFile>(&text).map(|_| ()).map_err(|e| e.to_string()));
+    let show = |r: Result<Result<(), String>, String>| match r {
+        Ok(Ok(())) => json!({"res": "ok", "msg": ""}),
+        Ok(Err(e)) => json!({"res": "err", "msg": e}),
+        Err(m) => json!({"res": "panic", "msg": m}),
+    };
+    json!({"runs": 1, "steps": 1, "events": 0, "current_format": show(new), "version1_format": show(old)})
+}
+
+/// values for presence p in {1: file, 2: args, 3: both}
+fn pair_vals(o: &Opt, p: u64, variant: u64, c: &mut Case) {
+    let mk = |syms: &[&str], keys: &[usize]| -> Val {
+        if o.ty == Ty::Map {
+            Val::M(syms.iter().zip(keys).map(|(s, k)| (EVENTS[(*k + variant as usize) % EVENTS.len()].to_string(), concrete(o, s, variant))).collect())
+        } else if matches!(o.kind, "list" | "listval") {
+            Val::S(syms.iter().map(|s| concrete(o, s, variant)).collect())
+        } else {
+            Val::S(vec![concrete(o, syms[0], variant)])
+        }
+    };
+    if p & 1 != 0 && !o.yaml.is_empty() {
+        let v = if o.kind == "flag" { Val::S(vec![(if o.flagval == "true" { "false" } else { "true" }).to_string()]) } else { mk(&["f1", "f2"], &[1, 2]) };
+        c.file.insert(o.name, v);
+    }
+    if p & 2 != 0 {
+        let v = if o.kind == "flag" { Val::S(vec![o.flagval.to_string()]) } else { mk(&["a1", "a2"], &[1, 3]) };
+        c.args.insert(o.name, v);
+    }
+}
+
+pub fn run_pairs(out_path: &str, stride: u64, offset: u64) -> Value {
+    let mut r = Runner { t: Trace::create(out_path), cases: 0, runs: 0, skipped_argv: 0, skipped_old: 0, failures: 0 };
+    let mut n = 0u64;
+    for i in 0..OPTS.len() {
+        for j in (i + 1)..OPTS.len() {
+            for pi in 1..4u64 {
+                for pj in 1..4u64 {
+                    n += 1;
+                    if n % stride != offset % stride {
+                        continue;
+                    }
+                    let variant = n % 4;
+                    let mut c = Case::default();
+                    pair_vals(&OPTS[i], pi, variant, &mut c);
+                    pair_vals(&OPTS[j], pj, variant, &mut c);
+                    // alternate the front end; combinations the command line refuses run on structs
+                    let fe = if (n / stride) % 2 == 0 || argv_refused(&c.args) { "struct" } else { "text" };
+                    r.run_case(&c, variant, &[fe], false);
+                }
+            }
+        }
+    }
+    r.summary()
+}
+
+pub fn run_random(n: u64, out_path: &str) -> Value {
+    let mut rng = rng(20);
+    let mut r = Runner { t: Trace::create(out_path), cases: 0, runs: 0, skipped_argv: 0, skipped_old: 0, failures: 0 };
+    for k in 0..n {
+        let variant = rng.gen_range(0..12u64);
+        // density of mentioned options varies from sparse to (almost) everything
+        let dens = [0.15, 0.4, 0.7, 0.95][(k % 4) as usize];
+        let mut c = Case::default();
+        for o in OPTS {
+            let uniq: u32 = rng.gen_range(0..1000);
+            let mut val = |src: &str, rng: &mut rand::rngs::StdRng| -> Val {
+                let len = if matches!(o.kind, "list" | "listval" | "map") { rng.gen_range(1..4) } else { 1 };
+                match o.ty {
+                    Ty::Map => {
+                        let mut ks: Vec<&str> = EVENTS.to_vec();
+                        ks.shuffle(rng);
+                        Val::M(ks[..len].iter().map(|k| (k.to_string(), format!("{}{}.{}.{}", src, uniq, o.name, k))).collect())
+                    }
+                    Ty::Str => Val::S((0..len).map(|i| format!("{}{}.{}.{}", src, uniq, o.name, i)).collect()),
+                    Ty::Num => Val::S(vec![(2 * rng.gen_range(100..40000u32) + if src == "a" { 1 } else { 0 }).to_string()]),
+                    Ty::DevType => Val::S(vec![["tun", "tap"][rng.gen_range(0..2)].to_string()]),
+                    Ty::Mode => Val::S(vec![MODES[rng.gen_range(0..4)].to_string()]),
+                    Ty::Algo => {
+                        let mut a: Vec<&str> = ALGOS4.to_vec();
+                        a.shuffle(rng);
+                        Val::S(a[..len].iter().map(|s| s.to_string()).collect())
+                    }
+                    Ty::Bool => Val::S(vec![rng.gen_bool(0.5).to_string()]),
+                }
+            };
+            if !o.yaml.is_empty() && rng.gen_bool(dens) {
+                let v = val("f", &mut rng);
+                c.file.insert(o.name, v);
+            }
+            if rng.gen_bool(dens * 0.8) {
+                let v = if o.kind == "flag" { Val::S(vec![o.flagval.to_string()]) } else { val("a", &mut rng) };
+                c.args.insert(o.name, v);
+            }
+        }
+        // algorithms: file and command line name different ciphers (no duplicates across sources)
+        if let (Some(Val::S(f)), Some(Val::S(a))) = (c.file.get("algorithms").cloned(), c.args.get("algorithms").cloned()) {
+            let a2: Vec<String> = a.into_iter().filter(|x| !f.contains(x)).collect();
+            if a2.is_empty() {
+                c.args.remove("algorithms");
+            } else {
+                c.args.insert("algorithms", Val::S(a2));
+            }
+        }
+        // what the command line refuses is not generated
+        if c.args.contains_key("password") && c.args.contains_key("private_key") {
+            if rng.gen_bool(0.5) {
+                c.args.remove("password");
+            } else {
+                c.args.remove("private_key");
+            }
+        }
+        if c.args.contains_key("statsd_prefix") && !c.args.contains_key("statsd_server") {
+            c.args.insert("statsd_server", Val::S(vec![format!("a.statsd_server.{}", k)]));
+        }
+        r.run_case(&c, variant, &["struct", "text", "old"], true);
+    }
+    r.summary()
+}
+
+// ---------------------------------------------------------------------------------------------- interface address
+
+fn netmask_event(t: &mut Trace, input: &str, origin: &str) {
+    let chars: Vec<u32> = input.chars().map(|c| (c as u32).min(1_000_000)).collect();
+    // the prefix the input *says* (for the violation signature only; TLC reads the characters itself)
+    let prefix: i64 = match input.find('/') {
+        None => -1,
+        Some(p) => input[p + 1..].parse::<i64>().ok().filter(|v| *v >= 0 && *v < 1_000_000).unwrap_or(-2),
+    };
+    let ev = match guarded(|| crate::parse_ip_netmask(input)) {
+        Ok(Ok((ip, mask))) => json!({"op":"netmask","origin":origin,"input":input,"chars":chars,"prefix":prefix,"res":"ok",
+                                      "ip":ip.octets().to_vec(),"mask":mask.octets().to_vec(),"msg":""}),
+        Ok(Err(e)) => json!({"op":"netmask","origin":origin,"input":input,"chars":chars,"prefix":prefix,"res":"err","ip":[],"mask":[],"msg":e}),
+        Err(m) => json!({"op":"netmask","origin":origin,"input":input,"chars":chars,"prefix":prefix,"res":"panic","ip":[],"mask":[],"msg":m}),
+    };
+    t.ev(ev);
+}
+
+pub fn run_netmask(cases_path: &str, nrandom: u64, out_path: &str) -> Value {
+    let mut t = Trace::create(out_path);
+    let mut inputs: Vec<(String, &str)> = vec![];
+    if cases_path != "-" {
+        for c in read_ndjson(cases_path) {
+            let s: String = c["chars"].as_array().unwrap().iter().map(|x| char::from_u32(x.as_u64().unwrap() as u32).unwrap()).collect();
+            inputs.push((s, "tlc"));
+        }
+    }
+    // every prefix length 0..=40 on several addresses, and omitted
+    for ip in ["10.0.0.1", "172.16.254.3", "0.0.0.0", "255.255.255.255", "1.2.3.4"] {
+        for p in 0..=40 {
+            inputs.push((format!("{}/{}", ip, p), "prefix"));
+        }
+        inputs.push((ip.to_string(), "omitted"));
+    }
+    for s in [
+        "", "/", "a/b", "1.2.3.4/", "1.2.3.4/-1", "1.2.3.4/33", "300.1.1.1/8", "1.2.3.4/24x", "1.2.3.4/24/", "1.2.3.4//24", "1.2.3.4/ 24",
+        " 1.2.3.4/24", "1.2.3.4 /24", "1.2.3/24", "1.2.3.4.5/24", "1.2.3.4/255", "1.2.3.4/256", "1.2.3.4/1000", "1.2.3.4/99999999999999999999",
+        "1.2.3.4/+8", "1.2.3.4/08", "1.2.3.4/000", "1.2.3.4/0x10", "1.2.3.4/1e1", "1.2.3.4/٣", "::1/64", "fe80::1", "1.2.3.4/\u{0}", "/24", "/0",
+        "1.2.3.4/32 ", "01.02.03.04/8", "1.2.3.4\n/8", "1,2,3,4/8", "1.2.3.4\\8", "-1.2.3.4/8", "1.2.3.256", "999999999999.1.1.1/0", "1.2.3.4/00000000000000000000000",
+        "0/0", "0.0.0.0/00", "1.2.3.4/0.0", "4294967296/0",
+    ] {
+        inputs.push((s.to_string(), "malformed"));
+    }
+    // seeded mutations of well-formed inputs
+    let mut rng = rng(21);
+    let alphabet: Vec<char> = "0123456789./+-a: ".chars().collect();
+    for _ in 0..nrandom {
+        let mut s: Vec<char> = format!("{}.{}.{}.{}/{}", rng.gen_range(0..256), rng.gen_range(0..256), rng.gen_range(0..256), rng.gen_range(0..256), rng.gen_range(0..41)).chars().collect();
+        for _ in 0..rng.gen_range(0..3) {
+            let pos = rng.gen_range(0..=s.len());
+            match rng.gen_range(0..3) {
+                0 if pos < s.len() => {
+                    s.remove(pos);
+                }
+                1 if pos < s.len() => s[pos] = *alphabet.choose(&mut rng).unwrap(),
+                _ => s.insert(pos, *alphabet.choose(&mut rng).unwrap()),
+            }
+        }
+        inputs.push((s.into_iter().collect(), "random"));
+    }
+    let n = inputs.len();
+    for (s, origin) in &inputs {
+        netmask_event(&mut t, s, origin);
+    }
+    let events = t.finish();
+    json!({"runs": 1, "steps": n, "events": events})
+}
+
+pub fn run(args: &[String]) -> Value {
+    let a = |i: usize| args.get(i).map(|s| s.as_str()).unwrap_or("");
+    let n = |i: usize| a(i).parse::<u64>().expect("numeric argument");
+    match a(0) {
+        "cases" => run_cases(a(1), a(2), n(3), n(4), n(5), a(6) == "allfe"),
+        "concrete" => run_concrete(a(1), a(2)),
+        "parsefile" => run_parsefile(a(1)),
+        "pairs" => run_pairs(a(1), n(2), n(3)),
+        "random" => run_random(n(1), a(2)),
+        "netmask" => run_netmask(a(1), n(2), a(3)),
+        _ => panic!("usage: cfgmerge cases|pairs|random|netmask ..."),
+    }
 }
